@@ -1021,6 +1021,122 @@ def run_svdcomp(case, ctx):
 FAMILIES["svdcomp"] = {"groups": svdcomp_groups, "cases": svdcomp_cases, "run": run_svdcomp}
 
 
+# ------------------------------------------------------------------------------------------ family: svdgen (compress level, generic slices)
+def svdgen_groups(tier):
+    return [{"fam": "svdgen", "K": K, "table": t} for K in ((2, 3, 4) if tier == "quick" else (2, 3, 4, 5)) for t in ("int", "generic")]
+
+
+def svdgen_cases(group, tier, seed):
+    """Ragged lists of GENERIC slices (not generated by a PARAFAC2 model): every ordered tuple of 1-3 heights from 1..K+1, so that
+    short slices (fewer rows than columns) precede taller ones and vice versa; default arguments must keep every singular value."""
+    K = group["K"]
+    hs = range(1, K + 2)
+    for n in (1, 2, 3):
+        for heights in itertools.product(hs, repeat=n):
+            for max_rank in (None, K + 1):
+                yield {"fam": "svdgen", "K": K, "table": group["table"], "heights": list(heights), "max_rank": max_rank, "seed": seed}
+
+
+def run_svdgen(case, ctx):
+    from tensorly.preprocessing import svd_compress_tensor_slices
+
+    K, heights, seed = case["K"], case["heights"], case["seed"]
+    mk = (lambda sh, o: V.ints(sh, o, 3)) if case["table"] == "int" else (lambda sh, o: V.generic(sh, o) * 2)
+    slices = [mk((h, K), seed * 17 + 3 + i) for i, h in enumerate(heights)]
+    ctx.evaluations += 1
+    try:
+        scores, loadings = svd_compress_tensor_slices([s.copy() for s in slices], max_rank=case["max_rank"])
+    except Exception as e:
+        ctx.violation("svd_compress_tensor_slices/raises/generic-slices", f"heights={heights} K={K}: {type(e).__name__}: {e}")
+        return
+    ctx.nontriv()
+    order = "ascending" if heights == sorted(heights) else ("descending" if heights == sorted(heights, reverse=True) else "mixed")
+    for i, sl in enumerate(slices):
+        S = np.asarray(scores[i])
+        rec = S if loadings[i] is None else np.asarray(loadings[i]) @ S
+        if loadings[i] is not None:
+            U = np.asarray(loadings[i])
+            if R4.maxdiff(U.T @ U, np.eye(U.shape[1])) > TOL9:
+                ctx.violation("svd_compress_tensor_slices/loading-not-orthonormal/generic-slices", f"heights={heights} K={K} slice {i}")
+                return
+        err = R4.maxdiff(rec, sl) if rec.shape == sl.shape else float("inf")
+        if err > TOL9 * max(1.0, float(np.abs(sl).max())):
+            ctx.outcome("svdgen:lossy")
+            ctx.violation(f"svd_compress_tensor_slices/loading-times-score-differs-from-slice/generic-slices-{order}-heights",
+                          f"heights={heights} K={K} max_rank={case['max_rank']} table={case['table']}: slice {i} is not reproduced (err {err!r}) although every singular value must be kept")
+            return
+    ctx.outcome("svdgen:lossless")
+
+
+FAMILIES["svdgen"] = {"groups": svdgen_groups, "cases": svdgen_cases, "run": run_svdgen}
+
+
+# ------------------------------------------------------------------------------------------ family: cpscale (extreme but finite scales)
+SCALES = [1e-19, 1e-9, 1.0, 1e9, 1e19]
+
+
+def cpscale_groups(tier):
+    return [{"fam": "cpscale", "shape": list(sh), "R": R} for sh in ((3, 2), (2, 3, 2)) + (((2, 2, 2, 2),) if tier != "quick" else ()) for R in (1, 2)]
+
+
+def cpscale_cases(group, tier, seed):
+    n = len(group["shape"])
+    for pattern in itertools.product(range(len(SCALES)), repeat=n):
+        for wk in ("none", "ones", "huge", "tiny"):
+            yield {"fam": "cpscale", "shape": group["shape"], "R": group["R"], "pattern": list(pattern), "w": wk, "seed": seed}
+
+
+def run_cpscale(case, ctx):
+    """Normalisation of CP tensors whose factors live on very different (but representable) scales: a non-zero column is
+    non-zero however small its norm is."""
+    from tensorly.cp_tensor import CPTensor, cp_normalize
+
+    shape, R, seed = tuple(case["shape"]), case["R"], case["seed"]
+    facs = [V.ints((s_, R), seed * 13 + 5 * k + 1, 2, nonzero=True) * SCALES[p] for k, (s_, p) in enumerate(zip(shape, case["pattern"]))]
+    w0 = {"none": None, "ones": np.ones(R), "huge": np.array([1e20, -3e20][:R]), "tiny": np.array([2e-20, 1e-20][:R])}[case["w"]]
+    total = float(np.prod([SCALES[p] for p in case["pattern"]])) * (1.0 if w0 is None else float(np.abs(w0).max()))
+    if not (1e-250 < total < 1e250):
+        ctx.count("guarded_out:product-of-scales-out-of-range")
+        return
+    dense0 = itm_cp_dense(w0, facs)
+    ref = float(np.abs(dense0).max())
+    ctx.evaluations += 1
+    for api in ("function", "method"):
+        try:
+            if api == "function":
+                out = cp_normalize(CPTensor((None if w0 is None else w0.copy(), [f.copy() for f in facs])))
+            else:
+                out = CPTensor((None if w0 is None else w0.copy(), [f.copy() for f in facs]))
+                out.normalize()
+            w1, f1 = np.asarray(out[0]), [np.asarray(f) for f in out[1]]
+        except Exception as e:
+            ctx.violation(f"cp_normalize/raises/extreme-scale", f"{case}: {type(e).__name__}: {e}")
+            return
+        ctx.nontriv([case, api])
+        for k, f in enumerate(f1):
+            cn = np.sqrt((f * f).sum(axis=0))
+            if np.any(np.abs(cn - 1) > 1e-9):
+                ctx.outcome("cpscale:not-unit")
+                ctx.violation("cp_normalize/columns-not-unit-norm/extreme-scale",
+                              f"{case} ({api}): factor {k} (scale {SCALES[case['pattern'][k]]:g}) has column norms {cn.tolist()} after normalisation")
+                return
+        dense1 = itm_cp_dense(w1, f1)
+        if not np.all(np.isfinite(dense1)) or np.abs(dense1 - dense0).max() > 1e-9 * ref:
+            ctx.outcome("cpscale:dense-changed")
+            ctx.violation("cp_normalize/dense-changed/extreme-scale", f"{case} ({api}): max|dense - dense0| = {np.abs(dense1 - dense0).max()!r} at scale {ref!r}")
+            return
+    ctx.outcome("cpscale:ok")
+
+
+def itm_cp_dense(w, fs):
+    from vmc import itm
+
+    return itm.cp_dense(w, fs)
+
+
+FAMILIES["cpscale"] = {"groups": cpscale_groups, "cases": cpscale_cases, "run": run_cpscale}
+
+
 # ------------------------------------------------------------------------------------------ family: cpperm
 SCALES = (1.0, -1.0, 2.0, -2.0, 0.5)
 
